@@ -140,3 +140,47 @@ Proof.
     destruct (IH (pre ++ [b]) k c r ltac:(lia) ltac:(rewrite app_length; cbn; lia)) as (s' & E & A).
     exists s'. split; [exact E|]. rewrite A, <- app_assoc. reflexivity.
 Qed.
+
+(** ** WriteBitString has to write the WHOLE argument
+
+    Variant (seeded change C06-r2m2) without [bs.rCursor = 0], looping from the
+    argument's read cursor: only the unread remainder is stored and the write
+    cursor advances by len - rCursor.  Witness: inner = 0xBEEF (16 bits) after
+    ReadUint(4), outer holds 3 bits: 15 bits instead of 19. *)
+Definition write_bitstring_from_cursor (a : bs) (s : bs) : bs * res unit :=
+  if short (len a) (buf a) then (s, Panic PIndex)
+  else write_bits (firstn (len a - rcur a) (skipn (rcur a) (buf a))) s.
+
+Definition inner_BEEF : bs := fst (write_bits (bits_of 16 48879) (new_bs 16)).
+Definition outer_3 : bs := fst (write_bits [true; false; true] (new_bs 40)).
+
+Theorem write_bitstring_from_cursor_refuted :
+  exists a a' v s, Inv a /\ Inv s /\ read_uint 4 a = (a', Ok v) /\ Inv a' /\
+    (len s + len a' <= cap s)%nat /\
+    let s' := fst (write_bitstring_from_cursor a' s) in
+    len s' = 15%nat /\ abs s' <> abs s ++ abs a' /\
+    (* the real code, same arguments *)
+    abs (fst (write_bitstring a' s)) = abs s ++ abs a' /\ len (fst (write_bitstring a' s)) = 19%nat.
+Proof.
+  exists inner_BEEF. eexists _, _. exists outer_3.
+  split; [unfold Inv; vm_compute; repeat split; lia|].
+  split; [unfold Inv; vm_compute; repeat split; lia|].
+  split; [vm_compute; reflexivity|].
+  split; [unfold Inv; vm_compute; repeat split; lia|].
+  split; [vm_compute; lia|]. cbv zeta.
+  split; [vm_compute; reflexivity|].
+  split; [vm_compute; discriminate|].
+  split; vm_compute; reflexivity.
+Qed.
+
+(* a fully consumed argument: nothing at all is written *)
+Theorem write_bitstring_from_cursor_consumed_refuted :
+  exists a s, Inv a /\ Inv s /\ rcur a = len a /\ len a = 8%nat /\
+    write_bitstring_from_cursor a s = (s, Ok tt) /\
+    len (fst (write_bitstring a s)) = (len s + 8)%nat.
+Proof.
+  exists (set_rcur (fst (write_bits (ones 8) (new_bs 8))) 8), (new_bs 1023).
+  split; [unfold Inv; vm_compute; repeat split; lia|].
+  split; [apply Inv_new|].
+  repeat split; vm_compute; reflexivity.
+Qed.
